@@ -539,7 +539,10 @@ def check_run(ctx, ns, h, fl, plan, order, cancel_at, info):
                     sync_final=sfinal, async_final=final)
         return a
     if nawaits >= 2:
-        ctx.distinct((info["source_hash"], info["plan_hash"], fl, tuple(cancel_at)))
+        if ctx.n_distinct < 40000:      # per shard: keeps the merged hash set small
+            ctx.distinct((info["source_hash"], info["plan_hash"], fl, tuple(cancel_at)))
+        else:
+            ctx.count("distinct_cases_beyond_hash_cap")
     ctx.count("nested_calls", sum(1 for n in notes if n[0] == "call"))
     return a
 
@@ -562,7 +565,7 @@ def run_program(ctx, i, rng):
         base = check_run(ctx, ns, h, fl, plan, order, [], info)
         if base.bad:
             return
-        if i < 8 * ctx.nshards and fl == "gen":
+        if fl == "gen" and len(src) < 5000 and h.next_k >= 2:
             ctx.sample({"source": src, "plan": plan, "order": order, "notes": list(h.notes), "final": base.final()}, limit=2)
         S = base.suspensions
         ctx.maxi("suspension_points", S)
@@ -581,7 +584,7 @@ def run_program(ctx, i, rng):
 
 
 def run(ctx):
-    for i in ctx.cases(3000, 200000):
+    for i in ctx.cases(3000, 100000):
         run_program(ctx, i, ctx.case_rng("prog", i))
 
 
